@@ -1,0 +1,82 @@
+// Copyright 2026, Chef.  All rights reserved.
+// https://github.com/q191201771/lal
+//
+// Use of this source code is governed by a MIT-style license
+// that can be found in the License file.
+
+package rtsp
+
+import (
+	"sync"
+
+	"github.com/q191201771/lal/pkg/sdp"
+	"github.com/q191201771/naza/pkg/nazanet"
+)
+
+// transport 一个session通过SETUP协商得到的传输通道：udp连接或者interleaved channel
+type transport struct {
+	audioRtpConn     *nazanet.UdpConnection
+	videoRtpConn     *nazanet.UdpConnection
+	audioRtcpConn    *nazanet.UdpConnection
+	videoRtcpConn    *nazanet.UdpConnection
+	audioRtpChannel  int
+	audioRtcpChannel int
+	videoRtpChannel  int
+	videoRtcpChannel int
+}
+
+// transportHolder
+//
+// SETUP在信令协程中执行，此时session已经通过ANNOUNCE/DESCRIBE交给了上层，
+// Dispose（被踢、超时）以及收发包可能发生在其他协程，所以对 transport 的访问都要经过这把锁，
+// 读取方使用快照。
+type transportHolder struct {
+	mu       sync.Mutex
+	t        transport
+	sdpCtx   *sdp.LogicContext // 只被 BaseOutSession 使用：sdp可能由上层在另一个协程中传入（拉流先于推流到达）
+	disposed bool
+}
+
+func newTransportHolder(rtpChannelInit int) transportHolder {
+	return transportHolder{t: transport{audioRtpChannel: rtpChannelInit, videoRtpChannel: rtpChannelInit}}
+}
+
+// get 返回当前的快照
+func (h *transportHolder) get() transport {
+	h.mu.Lock()
+	defer h.mu.Unlock()
+	return h.t
+}
+
+// update 修改传输通道。如果session已经dispose，不修改并返回false，调用方负责释放它刚创建的连接
+func (h *transportHolder) update(fn func(t *transport)) bool {
+	h.mu.Lock()
+	defer h.mu.Unlock()
+	if h.disposed {
+		return false
+	}
+	fn(&h.t)
+	return true
+}
+
+// takeForDispose 标记为已经dispose，并返回需要释放的快照
+func (h *transportHolder) takeForDispose() transport {
+	h.mu.Lock()
+	defer h.mu.Unlock()
+	h.disposed = true
+	return h.t
+}
+
+// setSdp 保存sdp。保存后内容不再被修改，读取方直接使用返回的指针
+func (h *transportHolder) setSdp(sdpCtx sdp.LogicContext) {
+	h.mu.Lock()
+	defer h.mu.Unlock()
+	h.sdpCtx = &sdpCtx
+}
+
+// sdp 还没有调用过 setSdp 时返回nil
+func (h *transportHolder) sdp() *sdp.LogicContext {
+	h.mu.Lock()
+	defer h.mu.Unlock()
+	return h.sdpCtx
+}
